@@ -79,7 +79,13 @@ def proof_items():
     from contracts import filearray
     from vf.driver import ProofItem
     # where an element lives on disk: the file of its row-major linear index (what a later process reads)
-    return [ProofItem(filearray.key_to_file, gen=filearray.gen, call=filearray.call)]
+    from contracts import small
+    reg = lambda cs: (lambda: {**{c.short: c for c in cs}, **{c.name: c for c in cs}})  # noqa: E731
+    return [ProofItem(filearray.key_to_file, gen=filearray.gen, call=filearray.call),
+            # the per-output storage choice recorded in the folder: one backend, else the output's entry, else ""
+            ProofItem(small.storage_class, gen=small.sc_gen, registry=reg(small.STORAGE)),
+            # persist_memory=True: every in-memory storage array of the store is persisted before map returns
+            ProofItem(small.maybe_persist_memory, gen=small.mpm_gen, registry=reg(small.PERSIST))]
 
 
 def _cases(tier, rng):
